@@ -29,6 +29,7 @@ func engineORD(w *World, tier string) *EngineResult {
 	ordLastWins(w, r)
 	ordKey(w, r)
 	ordEdge(w, r)
+	ordOwn(w, r)
 	r.finish()
 	return r
 }
